@@ -48,15 +48,58 @@ pub fn small_len_strategy() -> BoxedStrategy<u64> {
     prop_oneof![3 => 0u64..=16, 5 => 17u64..=3000, 1 => proptest::sample::select(&EDGE_LENS[..10]), 1 => proptest::sample::select(&EDGE_LENS[13..])].boxed()
 }
 
-pub const OPAQUES: &[&[u8]] = &[b"foo", b"", b"a, b", b"x y", b"bar", b"\x80\xff", b"W/", b"*", b"foo,", b"1234567890abcdef"];
+pub const OPAQUES: &[&[u8]] = &[
+    b"foo", b"", b"a, b", b"x y", b"bar", b"\x80\xff", b"W/", b"*", b"foo,", b"1234567890abcdef",
+    // the list separators themselves, backslashes (ordinary bytes in an entity-tag), Latin-1 and
+    // U+FFFD spelled out
+    b",", b", ", b"\\", b"C:\\dir\\", b"a\\\\", b"v\xe9", b"\xef\xbf\xbd",
+];
+
+/// Bytes of an opaque tag: etagc (0x21, 0x23-0x7E, obs-text) and space, biased towards the bytes a
+/// list or quoted-string parser treats specially.
+pub fn opaque_strategy() -> BoxedStrategy<Vec<u8>> {
+    let byte = prop_oneof![
+        6 => proptest::sample::select(&b",, \\\\W/*;=a"[..]),
+        3 => prop_oneof![Just(0x21u8), 0x23u8..=0x7e],
+        2 => 0x80u8..=0xff,
+    ];
+    vec(byte, 0..8).boxed()
+}
 
 pub fn etag_strategy() -> BoxedStrategy<Option<Bs>> {
     prop_oneof![
-        2 => Just(None),
-        4 => proptest::sample::select(OPAQUES).prop_map(|o| Some(quote(o, false))),
-        3 => proptest::sample::select(OPAQUES).prop_map(|o| Some(quote(o, true))),
+        4 => Just(None),
+        6 => proptest::sample::select(OPAQUES).prop_map(|o| Some(quote(o, false))),
+        5 => proptest::sample::select(OPAQUES).prop_map(|o| Some(quote(o, true))),
+        2 => opaque_strategy().prop_map(|o| Some(quote(&o, false))),
+        1 => opaque_strategy().prop_map(|o| Some(quote(&o, true))),
     ]
     .boxed()
+}
+
+/// Variants of a tag that differ from it in exactly one byte of the opaque part (same class of
+/// byte: obs-text stays obs-text), at the first, a middle and the last position.
+pub fn one_byte_off(tag: &[u8]) -> Vec<Vec<u8>> {
+    let start = if tag.starts_with(b"W/") { 3 } else { 1 };
+    let end = tag.len().saturating_sub(1);
+    let mut out = Vec::new();
+    if end <= start {
+        return out;
+    }
+    let mut pos = vec![start, (start + end) / 2, end - 1];
+    pos.dedup();
+    for p in pos {
+        let mut t = tag.to_vec();
+        t[p] ^= 1;
+        if t[p] == b'"' || t[p] < 0x21 || t[p] == 0x7f {
+            t[p] = tag[p] ^ 2;
+        }
+        if t[p] == b'"' || t[p] < 0x21 || t[p] == 0x7f {
+            continue;
+        }
+        out.push(t);
+    }
+    out
 }
 
 pub fn quote(opaque: &[u8], weak: bool) -> Bs {
@@ -302,7 +345,12 @@ pub fn tag_candidates(etag: &Option<Bs>) -> Vec<Vec<u8>> {
         let mut longer = t.0.clone();
         longer.insert(longer.len() - 1, b'x');
         c.push(longer);
+        c.extend(one_byte_off(&t.0).into_iter().take(2));
     }
+    // neighbours whose closing quote, separator and opening quote spell a quoted separator
+    c.push(b"\"a,\"".to_vec());
+    c.push(b"\",b\"".to_vec());
+    c.push(b"\"x\\\"".to_vec());
     c
 }
 
@@ -403,6 +451,7 @@ pub fn if_range_value(ent: &EntitySpec) -> BoxedStrategy<Bs> {
         let mut longer = t.clone();
         longer.insert(longer.len() - 1, b'x');
         c.push(longer);
+        c.extend(one_byte_off(t));
     }
     prop_oneof![
         4 => proptest::sample::select(c).prop_map(Bs),
